@@ -272,6 +272,7 @@ func scenario(c cfg) *mcx.Scenario {
 				regAnswered := make([]bool, nobs)
 				deregSeen := make([]bool, nobs)
 				cancelsIssued := 0
+				foreignSent := 0
 				serve := func() {
 					for _, om := range w.outs() {
 						o := struct{ M message.Message }{om}
@@ -362,6 +363,9 @@ func scenario(c cfg) *mcx.Scenario {
 								evs = append(evs, evt{"notify", i, v, dt})
 							}
 						}
+						if !c.Two && foreignSent < 1 {
+							evs = append(evs, evt{kind: "notify-zero-padded-token", i: i, v: 2})
+						}
 						if obs[i].regDone && obs[i].regErr == nil && !obs[i].cancelReq && cancelsIssued < 1 {
 							evs = append(evs, evt{kind: "cancel", i: i})
 						}
@@ -384,6 +388,20 @@ func scenario(c cfg) *mcx.Scenario {
 							hist = append(hist, fmt.Sprintf("dup%d(seq=%d)", e.i, e.v))
 							_ = w.inject(mkNote(e.i, obs[e.i].token, typ, w.peerMID(), codes.Content, true, e.v, false))
 						}
+					case "notify-zero-padded-token":
+						// a fresh notification for a DIFFERENT token: the observation's token with a leading zero byte
+						foreignSent++
+						hist = append(hist, fmt.Sprintf("notify%d(token 00||own)", e.i))
+						typ := message.NonConfirmable
+						if c.CON {
+							typ = message.Confirmable
+						}
+						ft := append(message.Token{0x00}, obs[e.i].token...)
+						m := mkNote(e.i, ft, typ, w.peerMID(), codes.Content, true, 1<<22, false)
+						nt := notes[string(m.Payload)]
+						nt.obs = -1
+						notes[string(m.Payload)] = nt
+						_ = w.inject(m)
 					case "cancel":
 						hist = append(hist, fmt.Sprintf("cancel%d", e.i))
 						cancelsIssued++
